@@ -47,6 +47,45 @@ pub mod biguint {
         }
     }
 
+    pub mod iter {
+        pub struct Halves<'a> {
+            pub(crate) data: &'a [u64],
+            pub(crate) hi_next: bool,
+        }
+
+        impl<'a> Halves<'a> {
+            // R9-exhaustion-test: `self.data` is known non-empty inside the Some arm, the test can never be true
+            pub fn take_back(&mut self) -> Option<u32> {
+                if let Some((&last, rest)) = self.data.split_last() {
+                    if self.data.is_empty() && !self.hi_next {
+                        self.hi_next = true;
+                        None
+                    } else {
+                        self.data = rest;
+                        Some(last as u32)
+                    }
+                } else {
+                    None
+                }
+            }
+
+            // control: the field is updated first, the test looks at what is left
+            pub fn take_back_ok(&mut self) -> Option<u32> {
+                if let Some((&last, rest)) = self.data.split_last() {
+                    self.data = rest;
+                    if self.data.is_empty() && !self.hi_next {
+                        self.hi_next = true;
+                        None
+                    } else {
+                        Some(last as u32)
+                    }
+                } else {
+                    None
+                }
+            }
+        }
+    }
+
     pub mod bits {
         fn negate_carry(a: u64, acc: &mut u128) -> u64 {
             *acc += u128::from(!a);
